@@ -99,6 +99,7 @@ class Ctx:
         self.render: dict[str, str] = {}
         self.seen: set = set()
         self.pool: dict[str, list] = {}  # every object exercised, per registry label: compared pairwise at the end (all_pairs)
+        self.neigh: dict[str, int] = {}  # wire-neighbour sweeps done per class
         import exabgp
 
         self.res.extra['exabgp_file'] = exabgp.__file__
@@ -296,6 +297,7 @@ def exercise_nlri(ctx: Ctx, x, src: str, text: str | None = None, laws_only=None
                 ctx.ok(sub, 'L2')
         # ---- L3: objects built by different paths (source vs decode)
         check_eq_pair(ctx, x, y, label, dict(wit, pair=f'{src} vs decode'))
+        wire_neighbours(ctx, y, b, afi, safi, send, neg, label, sub, src, sname)
         # ---- L5
         key = (label, send, b)
         if key not in ctx.seen:
@@ -303,6 +305,40 @@ def exercise_nlri(ctx: Ctx, x, src: str, text: str | None = None, laws_only=None
             check_l5(ctx, label, lambda: laws.decode_one_nlri(afi, safi, b, send, neg)[0], wit, case_id(label, int(send), b))
             if sub:
                 ctx.ok(sub, 'L5')
+
+
+def wire_neighbours(ctx: Ctx, y, b: bytes, afi, safi, send: bool, neg, label: str, sub, src: str, sname: str) -> None:
+    """every NLRI one octet away from b (each position: low bit, high bit, +1, zero) which still decodes to its end is held
+    against y: an __eq__ or __hash__ which leaves out ONE field that index() keeps (or the reverse) shows on the neighbour
+    which differs in that field only - systematically, not when two random objects happen to be that close"""
+    from exabgp.bgp.message.update.nlri.nlri import NLRI
+
+    k = sub or label
+    n = ctx.neigh.get(k, 0)
+    if n >= 3 * ctx.scale:
+        return
+    ctx.neigh[k] = n + 1
+    seen = set()
+    for i in range(len(b)):
+        for op in range(4):
+            m = bytearray(b)
+            m[i] = (m[i] ^ 1, m[i] ^ 0x80, (m[i] + 1) & 0xFF, 0)[op]
+            mb = bytes(m)
+            if mb == b or mb in seen:
+                continue
+            seen.add(mb)
+            try:
+                y2, used, rest = laws.decode_one_nlri(afi, safi, mb, send, neg)
+            except Exception:  # noqa
+                ctx.res.count('wire-neighbour:not-decodable')
+                continue
+            if y2 is NLRI.INVALID or rest or type(y2) is not type(y):
+                ctx.res.count('wire-neighbour:other')
+                continue
+            wit = {'class': label, 'source': src, 'session': sname, 'pair': f'decoded vs the same octets with octet {i} changed', 'a_bytes': hx(b), 'b_bytes': hx(mb), 'a': laws.safe_repr(y), 'b': laws.safe_repr(y2)}
+            eq = check_eq_pair(ctx, y, y2, label, wit)
+            ctx.res.count('wire-neighbour:' + ('equal' if eq else 'distinct'))
+            ctx.res.ok('wire-neighbour', (k, i, op) if n == 0 else None)
 
 
 def l5_only_nlri(ctx: Ctx, x, label: str, neg, wit: dict) -> None:
